@@ -78,6 +78,9 @@ FreshSess == [used |-> FALSE, conn |-> FALSE, upging |-> FALSE, upged |-> FALSE,
 (*          "fresh" (opened as websocket)]                                  *)
 (*   rejd   sessions whose connect handler rejected the connection          *)
 (*   jzero  [Sid -> unfinished count reached 0 since the last join began]   *)
+(*   late   the input being processed (POST body, websocket frame) began    *)
+(*          after its session's disconnect event; evl [Sid -> that flag for *)
+(*          each event] - history for "nothing after the disconnect"        *)
 (***************************************************************************)
 
 InitG == [ss |-> [s \in Sid |-> FreshSess], table |-> {},
@@ -85,7 +88,8 @@ InitG == [ss |-> [s \in Sid |-> FreshSess], table |-> {},
           deliv |-> [s \in Sid |-> <<>>], hq |-> <<>>, pstart |-> [s \in Sid |-> 0],
           out |-> <<>>, exc |-> "none", dev |-> {}, cause |-> [s \in Sid |-> "none"],
           rcvd |-> [s \in Sid |-> <<>>], endt |-> [s \in Sid |-> None],
-          hs |-> [s \in Sid |-> "none"], rejd |-> {}, jzero |-> [s \in Sid |-> FALSE]]
+          hs |-> [s \in Sid |-> "none"], rejd |-> {}, jzero |-> [s \in Sid |-> FALSE],
+          late |-> FALSE, evl |-> [s \in Sid |-> <<>>]]
 
 NoWs == [st |-> "none", rid |-> 0, dl |-> None]
 
@@ -112,7 +116,9 @@ FirstIdx(sq, P(_)) == IF \E i \in 1..Len(sq) : P(sq[i])
 SelectSeq2(sq, P(_)) == SelectSeq(sq, P)
 
 Out(gg, o) == [gg EXCEPT !.out = Append(@, o)]
-Event(gg, s, e) == Out([gg EXCEPT !.ev[s] = Append(@, e)], [k |-> "ev", s |-> s, e |-> e])
+Event(gg, s, e) == Out([gg EXCEPT !.ev[s] = Append(@, e), !.evl[s] = Append(@, gg.late)],
+                       [k |-> "ev", s |-> s, e |-> e])
+BeginInput(gg, s) == [gg EXCEPT !.late = gg.ss[s].closing]
 
 -----------------------------------------------------------------------------
 (* Nested calls of socket.py, as state transformers on g.                   *)
@@ -169,7 +175,7 @@ RunMsgHandler(gg, s, p) ==
 Receive(gg, s, p) ==
     CASE p = "PONG"    -> [gg EXCEPT !.pstart[s] = @ + 1]
       [] IsCliMsg(p)   -> IF AsyncHandlers
-                          THEN [gg EXCEPT !.hq = Append(@, [s |-> s, tok |-> p]),
+                          THEN [gg EXCEPT !.hq = Append(@, [s |-> s, tok |-> p, late |-> gg.late]),
                                           !.rcvd[s] = Append(@, p)]
                           ELSE RunMsgHandler([gg EXCEPT !.rcvd[s] = Append(@, p)], s, p)
       [] p = "UPGRADE" -> Send(gg, s, "NOOP")
@@ -226,7 +232,7 @@ UsedSids == {s \in Sid : g.ss[s].used}
 FreeSids == Sid \ UsedSids
 NextFree == CHOOSE s \in FreeSids : \A t \in FreeSids : s <= t
 
-EnvStart(gg) == [gg EXCEPT !.out = <<>>, !.exc = "none"]
+EnvStart(gg) == [gg EXCEPT !.out = <<>>, !.exc = "none", !.late = FALSE]
 
 MonStart(m) == IF m.st = "off" THEN [m EXCEPT !.st = "new"] ELSE m
 
@@ -362,7 +368,7 @@ PostReq(s, body) ==
                  /\ g' = Resp(g0, rid, 200, <<>>) /\ UNCHANGED joiners
              ELSE
                  LET g1 == IF body = <<"OVERSIZE">> THEN [g0 EXCEPT !.exc = "toolong"]
-                           ELSE ReceiveAll(g0, s, body)
+                           ELSE ReceiveAll(BeginInput(g0, s), s, body)
                  IN IF g1.exc = "none" THEN
                         /\ g' = Resp(g1, rid, 200, <<>>) /\ UNCHANGED joiners
                     ELSE IF g1.exc = "index" THEN   \* F7: swallowed by the bare except
@@ -408,6 +414,14 @@ WsFrame(s, f) ==
     /\ wsr[s].st \in {"probe", "upg", "read"}
     /\ ~wsgone[s]
     /\ wsin' = [wsin EXCEPT ![s] = Append(@, f)]
+    /\ g' = EnvStart(g)
+    /\ UNCHANGED <<now, polls, psleep, wsr, wsw, wsgone, joiners, mon, nreq>>
+
+\* several frames arrive back to back (they are all buffered before the handler runs)
+WsFrames(s, fs) ==
+    /\ wsr[s].st \in {"probe", "upg", "read"}
+    /\ ~wsgone[s]
+    /\ wsin' = [wsin EXCEPT ![s] = @ \o fs]
     /\ g' = EnvStart(g)
     /\ UNCHANGED <<now, polls, psleep, wsr, wsw, wsgone, joiners, mon, nreq>>
 
@@ -491,7 +505,7 @@ PollTimeout(i) ==
 RunHandler ==
     /\ g.hq # <<>>
     /\ LET h == Head(g.hq)
-       IN g' = RunMsgHandler([g EXCEPT !.hq = Tail(@)], h.s, h.tok)
+       IN g' = RunMsgHandler([g EXCEPT !.hq = Tail(@), !.late = h.late], h.s, h.tok)
     /\ UNCHANGED <<now, polls, psleep, wsr, wsin, wsw, wsgone, joiners, mon, nreq>>
 
 PingStart(s) ==
@@ -600,8 +614,11 @@ ReaderFrame(s) ==
                  /\ g' = WsEnd(g, s)
                  /\ wsr' = [wsr EXCEPT ![s].st = "dead", ![s].dl = None]
              ELSE
-                 LET g1 == Receive(g, s, f)
-                 IN IF g1.exc = "closed" THEN
+                 LET g1 == Receive(BeginInput(g, s), s, f)
+                 IN IF g1.exc = "closed"
+                       \/ (g1.ss[s].closed /\ "ReaderContinuesAfterClose" \notin Deviations) THEN
+                        \* the session ended (CLOSE frame, or closed by another task): the loop
+                        \* ends; nothing else received on this socket is processed
                         /\ g' = ReaderEndG([g1 EXCEPT !.exc = "none"], s)
                         /\ wsr' = [wsr EXCEPT ![s].st = "joinw", ![s].dl = None]
                     ELSE
